@@ -1,0 +1,31 @@
+//go:build verif
+
+package nsqd
+
+// Verification hook for property C10 (HTTP API vs TCP publish equivalence):
+// read, without disturbing them, the messages a channel holds in its deferred
+// queue together with the delay each was published with (Message.deferred).
+// Only compiled with -tags verif; nothing else refers to it.
+
+// VerifDeferredOf returns the body and the requested delay (ns) of every message
+// currently deferred on the channel; ok is false if the topic or channel is unknown.
+func (n *NSQD) VerifDeferredOf(topicName, channelName string) (bodies [][]byte, delays []int64, ok bool) {
+	t, err := n.GetExistingTopic(topicName)
+	if err != nil {
+		return nil, nil, false
+	}
+	c, err := t.GetExistingChannel(channelName)
+	if err != nil {
+		return nil, nil, false
+	}
+	c.deferredMutex.Lock()
+	defer c.deferredMutex.Unlock()
+	for _, item := range c.deferredMessages {
+		m := item.Value.(*Message)
+		b := make([]byte, len(m.Body))
+		copy(b, m.Body)
+		bodies = append(bodies, b)
+		delays = append(delays, int64(m.deferred))
+	}
+	return bodies, delays, true
+}
